@@ -70,6 +70,21 @@ mod harness {
     #[kani::proof]
     #[kani::unwind(14)]
     fn h_find_substr_p2() { check_find_substr(true); }
+    /// listed pairs around the byte-length / character-count boundary (pattern longer than the haystack in bytes but not in characters, and
+    /// vice versa, empty operands): concrete, so a length mix-up shows at once even where the symbolic harnesses need their full budget
+    #[kani::proof]
+    #[kani::unwind(14)]
+    fn h_find_substr_listed() {
+        let cases: [(&'static str, &'static str, &[u32]); 7] = [("é", "a", &[]), ("日本", "ab", &[]), ("a", "é", &[]), ("aa", "a", &[]), ("", "a", &[]), ("a", "", &[]), ("é", "aéé", &[1, 2])];
+        let mut c = 0;
+        while c < 7 {
+            let (pat, hay, want) = cases[c];
+            let r = builtin_find_substr(IStr(pat), IStr(hay));
+            assert!(r.n == want.len(), "obligation: findSubstr reports every occurrence and nothing else (listed pairs)");
+            let mut i = 0; while i < want.len() { assert!(r.items[i] == want[i], "obligation: findSubstr positions are code-point indices (listed pairs)"); i += 1; }
+            c += 1;
+        }
+    }
     /// split by pattern length (0-1 characters / exactly 2) to keep each query small
     fn check_find_substr(two: bool) {
         const A: [&str; 3] = ["a", "é", "😀"];
